@@ -494,6 +494,57 @@ def check_formatinfo(case):
     return None
 
 
+def check_fmthistory(case):
+    """`fmthist <seed>`: format-info / pattern answers of a culture asked AFTER other cultures (this process) against
+    the answers of a fresh interpreter that asked nothing before; then a mutable culture customised after/without
+    an earlier lookup"""
+    import json
+    import os
+    import random
+    import subprocess
+    import sys
+    import c13_fmt
+    from pyoda_time._compatibility._culture_info import CultureInfo
+    seed = int(case.split(" ")[1])
+    rng = random.Random(seed)
+    want = ["fr-FR", "de-DE", "en-US", "he-IL", "", "ja-JP", "ar-SA", "fa-IR", "fi-FI", "th-TH", "es-CL", "hi-IN", "ru-RU"]
+    avail = []
+    for n in want:
+        try:
+            if n == "" or CultureInfo.get_culture_info(n) is not None:
+                avail.append(n)
+        except Exception:  # noqa: BLE001
+            pass
+    rng.shuffle(avail)
+    seq = avail[:5]
+    here = os.path.dirname(os.path.abspath(c13_fmt.__file__))
+    for pos, name in enumerate(seq):
+        got = c13_fmt.answers(name)
+        p = subprocess.run([sys.executable, os.path.join(here, "c13_fmt.py"), name], capture_output=True, text=True, timeout=120,
+                           env=dict(os.environ, PYODA_REPO=str(common_repo())))
+        if p.returncode != 0:
+            raise RuntimeError("child interpreter failed: " + p.stderr[-300:])
+        fresh = json.loads(p.stdout)
+        got = json.loads(json.dumps(got, ensure_ascii=True, sort_keys=True))
+        if got != fresh:
+            diff = [k for k in fresh if fresh[k] != got.get(k)]
+            k = diff[0]
+            return {"key": "formatinfo-history-dependent",
+                    "what": f"culture {name!r} asked after {seq[:pos]}: {k} = {json.dumps(got[k])[:300]}; a fresh interpreter answers {json.dumps(fresh[k])[:300]}"}
+    for name in [n for n in seq if n][:2]:
+        a = c13_fmt.mutable_scenario(name, True)
+        b = c13_fmt.mutable_scenario(name, False)
+        if a != b:
+            return {"key": "formatinfo-mutable-culture-stale",
+                    "what": f"a mutable clone of {name!r} customised AFTER a lookup answers {a}; customised without an earlier lookup: {b}"}
+    return None
+
+
+def common_repo():
+    import common
+    return common.REPO
+
+
 def check_provider(case):
     """`provider <seed> <n>`: shuffled repeated lookups return the same object per key"""
     import random
@@ -1023,6 +1074,7 @@ def run(ctx):
             n_cult = 0
         if n_cult > 520:
             check_cases("formatinfo.cache", [f"formatinfo {ctx.scale(520, 800)} {rng.randint(0, 10**6)}"], check_formatinfo)
+            check_cases("formatinfo.history", [f"fmthist {rng.randint(0, 10**6)}" for _ in range(ctx.scale(2, 12))], check_fmthistory)
             ctx.evaluations += 620
         else:
             ctx.note("formatinfo.cache", f"skipped: only {n_cult} cultures available (ICU stub); the bound of _Cache is covered by lru.run")
@@ -1076,7 +1128,7 @@ def gen_calhist_one(ctx, cid, length):
 
 
 CHECKS = {"barrier": None, "calhist": check_calhist, "hebhist": check_hebhist, "zonehist": check_zonehist,
-          "formatinfo": check_formatinfo, "provider": check_provider, "thr": check_threads}
+          "formatinfo": check_formatinfo, "fmthist": check_fmthistory, "provider": check_provider, "thr": check_threads}
 
 
 def replay_op(op, failure):
